@@ -61,7 +61,12 @@ def ragged_obj(repo, numtype, indextype, byteorder, atomrank, lenclass, big=Fals
     if not (isinstance(vdir, str) and isinstance(idir, str)):
         raise AnalysisError('RaggedArray sub-directory names are not string constants')
     atom = tuple(Sym((f'a{i}',)) for i in range(atomrank))
-    values = array_obj(repo, numtype, byteorder, (Sym(('N',)),) + atom, dirparts=(vdir,), name='dra._values', big=big)
+    # the "big" configuration has more than 2**31-1 value ELEMENTS; its number of ROWS exceeds that bound only when the
+    # atom is a scalar (rows == elements) — with an atom of rank >= 1 the rows of such an array may well be fewer, so a
+    # cut-off that asks for the number of rows does not fire (seeded C07-15)
+    nrows = Sym(('N',))
+    nrows.big = big if atomrank == 0 else False
+    values = array_obj(repo, numtype, byteorder, (nrows,) + atom, dirparts=(vdir,), name='dra._values', big=big)
     nsub = Sym(('n',))
     indices = array_obj(repo, indextype, byteorder, (nsub, 2), dirparts=(idir,), name='dra._indices')
     dt = Obj('dra.dtype', name=numtype)
